@@ -198,13 +198,23 @@ def check_bounds(ctx, db):
     for name in ('scale', 'mirror', 'transform'):
         f = db.fn('gdstk::FlexPath::' + name)
         ctx.touch(f)
+        from ..facts import expr_text
+        hook, _drop = clone.temps(f, [f.body])       # `const uint64_t n = spine.point_array.count` reads as its initialiser
+        tx = lambda e: norm(expr_text(e, None, hook))
         for l in f.walk():
-            if l.k == 'ForStmt' and any(x.k == 'DeclRefExpr' and x.n == 'wo' for x in l.walk()):
+            if l.k == 'ForStmt' and any(x.k == 'DeclRefExpr' and x.n == 'wo' for x in (l.child('body').walk() if l.child('body') is not None else [])) and not any(v.k == 'VarDecl' and v.n == 'wo' for v in l.walk()):
                 iv = next((v for v in (l.child('init').walk() if l.child('init') is not None else []) if v.k == 'VarDecl'), None)
-                if iv is None or 'ne' == iv.n:
+                if iv is None:
                     continue
                 n += 1
-                ok = norm(iv.child('init').text()) == 'this->spine.point_array.count'
+                c = _strip_casts(l.child('cond')) if l.child('cond') is not None else None
+                trips = None
+                if c is not None and c.k == 'BinaryOperator' and _strip_casts(c.child('lhs')).k == 'DeclRefExpr' and _strip_casts(c.child('lhs')).n == iv.n:
+                    if c.op == '>' and _strip_casts(c.child('rhs')).cv == 0:
+                        trips = tx(iv.child('init'))                                  # counts down from N
+                    elif c.op == '<' and _strip_casts(iv.child('init')).cv == 0:
+                        trips = tx(c.child('rhs'))                                    # counts up to N
+                ok = trips == 'this->spine.point_array.count'
                 ctx.check(ok, 'R-BOUND', 'FlexPath::%s/wo-loop' % name, l.loc(), 'the loop over half_width_and_offset is bounded by the spine point count (valid given the bookkeeping invariant)')
     ctx.require('R-BOUND wo loops', n, 3)
 
